@@ -244,7 +244,12 @@ def main(argv=None):
                 inconclusive.append((res["name"], res.get("detail", "")))
             if res.get("kind") != "direct" and res.get("status") in ("confirmed", "inconclusive") \
                     and not str(res.get("witness", "")).startswith("refuted"):
-                if task["ob"].get("allow_vacuous"):
+                if "CONFIRMED" not in str(res.get("witness")) or "CANNOT_CONFIRM" in str(res.get("witness")):
+                    # the twin ran out of time before reaching the final assertion (loaded machine): not proven vacuous
+                    if res.get("status") == "confirmed":
+                        res["status"] = "inconclusive"
+                    inconclusive.append((res["name"], "vacuity twin undecided (%s)" % res.get("witness")))
+                elif task["ob"].get("allow_vacuous"):
                     # declared possibly-empty partition: not counted as discharged, not an error
                     if res.get("status") == "confirmed":
                         res["status"] = "inconclusive"
